@@ -144,6 +144,8 @@ DESC_FAULTS = {
     "two-unknown-description-keys": "any",
     "unknown-description-key-non-string": "any",
     "unknown-parameter-name": "cond",
+    "unknown-parameter-name/attribute-of-the-distribution": "cond",
+    "unknown-parameter-name/f_-spelling": "cond",
     "parameter-fixed-and-dependent": "cond",
     "parameter-fixed-at-zero-and-dependent": "cond",  # a falsy fixed value (f_gamma=0 is what the predefined models use)
     "parameter-neither": "cond",
@@ -157,6 +159,9 @@ DESC_FAULTS = {
 FULL_FAULTS = {
     # class: (stage L, position kind)
     "data-wrong-columns": ("S2", "global"),
+    "data-flat-single-column": ("S2", "global"),
+    "data-flat-raveled": ("S2", "global"),
+    "data-flat-list": ("S2", "global"),
     "fitdesc-wrong-length": ("S2", "global"),
     "fitdesc-without-method": ("S2", "dim"),
     "unknown-fit-method": ("S2", "dim"),
@@ -214,6 +219,8 @@ def applicable(pipe, cls):
             return list(range(1, n - 1))
         return []
     L, k = FULL_FAULTS[cls]
+    if cls.startswith("data-flat") and n < 2:
+        return []
     if k == "global":
         return [None]
     if k == "dim":
@@ -548,6 +555,11 @@ def run_pipeline(pipe, faults, run=None):
                 desc[0] = dist
             if has("unknown-parameter-name", i):
                 desc["parameters"]["not_a_parameter"] = DependenceFunction(make_func("poly1", [1.0, 1.0]))
+            if has("unknown-parameter-name/attribute-of-the-distribution", i):
+                # not a parameter, although the distribution object has an attribute of that name
+                desc["parameters"][["pdf", "fit", "parameters", "draw_sample", "cdf"][i % 5]] = DependenceFunction(make_func("poly1", [1.0, 1.0]))
+            if has("unknown-parameter-name/f_-spelling", i):
+                desc["parameters"]["f_" + FAMILIES[d["family"]][1][0]] = DependenceFunction(make_func("poly1", [1.0, 1.0]))
             if has("conditional-on-self", i):
                 desc = _as_conditional(desc, d, i)
             if has("conditional-on-later", i):
@@ -568,6 +580,12 @@ def run_pipeline(pipe, faults, run=None):
         fit_desc = copy.deepcopy(pipe["fit_desc"])
         if has("data-wrong-columns"):
             data = np.column_stack([data, data[:, 0]]) if (len(pipe["dims"]) % 2) else data[:, :-1] if data.shape[1] > 1 else np.column_stack([data, data[:, 0]])
+        if n > 1 and has("data-flat-single-column"):
+            data = data[: (len(data) // n) * n, 0].copy()  # one column; its length is a multiple of n_dim
+        if n > 1 and has("data-flat-raveled"):
+            data = data.ravel()
+        if n > 1 and has("data-flat-list"):
+            data = data[: (len(data) // n) * n, 0].tolist()
         if has("fitdesc-wrong-length"):
             fit_desc = fit_desc + [{"method": "mle"}]
         for i in anyf("fitdesc-without-method"):
